@@ -24,6 +24,10 @@ func (e *Engine) evalSpecFn(st *State, fn *ssa.Function, args []Val, extraPC []*
 	for k, v := range st.eqs {
 		sub.eqs[k] = v
 	}
+	for k, v := range st.iters {
+		c := *v
+		sub.iters[k] = &c
+	}
 	for _, p := range extraPC {
 		sub.assume(p)
 	}
@@ -729,6 +733,14 @@ func (e *Engine) enterBlock(st *State, fr *Frame) bool {
 		if ld.rangeIdx != nil {
 			v := st.cells[cellKey{fr.id, ld.rangeIdx}]
 			st.assume(Le(IntC(-1), v[0]))
+		}
+		// positions of iterators over symbolic strings are loop-carried state too
+		for _, it := range st.iters {
+			if it.kind == "strsym" {
+				np := Fresh("strpos", SInt)
+				st.assume(And(Le(IntC(0), np), Le(np, strLen(it.sref))))
+				it.posT = np
+			}
 		}
 		for _, c := range lc.Invariants {
 			st.assume(e.evalClause(st, ld.fc, c, e.loopClauseArgs(st, fr, c, ld), e.preHeap))
